@@ -139,6 +139,48 @@ theorem c20_extra_members_ignored (e : EntryPoint) (dflt : Env) (cfg cfg' : J) (
     (entry e dflt (.json cfg) [n]).launches = (entry e dflt (.json cfg') [n]).launches := by
   rw [c20_launch_exact e dflt cfg n s h, c20_launch_exact e dflt cfg' n s h']
 
+/-! ## Which file is executed -/
+
+/-- **The executed file is the configured command, resolved in the CHILD's environment.**  For a
+valid configuration whose command resolves to `exe` on the `PATH` of the environment the child
+gets (configured env, or library default when none is configured), every entry point executes
+exactly `exe` with the configured args and environment. -/
+theorem c20_executable_exact (files : List String) (e : EntryPoint) (dflt : Env) (cfg : J) (n : String)
+    (s : Spec) (exe : String) (h : ValidFor cfg n s)
+    (hr : resolve files (envOrDefault dflt s.env) s.command = some exe) :
+    entryOn files e dflt (.json cfg) [n]
+      = { launches := [{ argv := exe :: s.args, env := envOrDefault dflt s.env, handshake := true }],
+          raised := none } := by
+  simp [entryOn, c20_launch_exact e dflt cfg n s h, configured, resolveLaunch, hr]
+
+/-- A command given as a path is executed verbatim. -/
+theorem c20_path_command_verbatim (files : List String) (env : Env) (cmd : String)
+    (h : isPath cmd = true) : resolve files env cmd = some cmd := by
+  simp [resolve, h]
+
+/-- With a configured (non-empty) environment the executed file does not depend on the host
+process at all: whatever the host's own environment (`dflt₁`, `dflt₂`), the same file runs. -/
+theorem c20_executable_independent_of_host (files : List String) (dflt₁ dflt₂ : Env) (kv : String × String)
+    (rest : Env) (cmd : String) :
+    resolve files (envOrDefault dflt₁ (some (kv :: rest))) cmd
+      = resolve files (envOrDefault dflt₂ (some (kv :: rest))) cmd := by
+  simp [envOrDefault]
+
+/-- A command that does not exist in the child's environment is not launched by any entry point
+(even if a file of that name exists somewhere else, e.g. on the host's PATH). -/
+theorem c20_unresolvable_not_launched (files : List String) (e : EntryPoint) (dflt : Env) (cfg : J)
+    (n : String) (s : Spec) (h : ValidFor cfg n s)
+    (hr : resolve files (envOrDefault dflt s.env) s.command = none) :
+    (entryOn files e dflt (.json cfg) [n]).launches = [] := by
+  simp [entryOn, c20_launch_exact e dflt cfg n s h, configured, resolveLaunch, hr]
+
+/-- a bare name present in two directories: the configured PATH decides, not the host's -/
+example : resolve ["/host/bin/srv", "/tenant/bin/srv"] [("PATH", "/tenant/bin:/usr/bin")] "srv"
+    = some "/tenant/bin/srv" := by decide
+example : resolve ["/host/bin/srv", "/tenant/bin/srv"] [("PATH", "/host/bin:/usr/bin"), ("HOME", "/root")] "srv"
+    = some "/host/bin/srv" := by decide
+example : resolve ["/host/bin/srv"] [("FOO", "1")] "srv" = none := by decide
+
 /-! ## Non-vacuity: a two-server document with spaces, quotes, an empty argument, an empty `env`,
 a string timeout and extra members -/
 def dbCfg : List (String × J) :=
